@@ -4,7 +4,7 @@ from __future__ import annotations
 import ast
 
 from ..cfg import CFG
-from ..core import AnalysisError, own_nodes, short, unparse
+from ..core import AnalysisError, own_nodes, parent, short, unparse
 from ..rules import shape, isdrules, match
 from . import common
 
@@ -78,35 +78,50 @@ def check_display_prune(ctx, mk):
 
 
 def check_default_region(ctx):
+  """DEF-region: each declared region is processed with itself as the selected region, in document order,
+  and its result is added to the ISD; a document that declares no region is processed once with a
+  synthesised default region and selected_region=None (so that content without a region is selected).
+  The statements that follow the reading of the regions are evaluated for zero and for two declared
+  regions and the recorded _process_element / put_region calls are compared with that."""
+  from ..rules import fineval
   ix = ctx.ix
   f = ix.func("ttconv.isd:ISD.from_model")
   ctx.unit(f.module)
-  ok = False
-  why = "no `if <regions>: ... else: <default region>` found"
+  pe = ix.func("ttconv.isd:ISD._process_element")
+  sel_i = pe.params.index("selected_region") if "selected_region" in pe.params else 4
+  el_i = len(pe.params) - 1
   # the local that holds the declared regions: assigned from <doc>.iter_regions()
-  rvars = {st.targets[0].id for st in own_nodes(f.node) if isinstance(st, ast.Assign) and len(st.targets) == 1 and isinstance(st.targets[0], ast.Name)
-           and any(isinstance(c, ast.Call) and isinstance(c.func, ast.Attribute) and c.func.attr == "iter_regions" for c in ast.walk(st.value))}
-  for n in own_nodes(f.node):
-    pol = match.nonempty_test(n.test, lambda e: isinstance(e, ast.Name) and e.id in rvars) if isinstance(n, ast.If) and n.orelse else None
-    if pol is not None:
-      some, none = (n.body, n.orelse) if pol else (n.orelse, n.body)
-      else_txt = "\n".join(unparse(s) for s in none)
-      body_txt = "\n".join(unparse(s) for s in some)
-      ok = "DEFAULT_REGION_ID" in else_txt and "_process_element" in else_txt and "for" in body_txt and "_process_element" in body_txt
-      # selected region of the default-region call must be None so that content without region is selected
-      for c in ast.walk(ast.Module(body=none, type_ignores=[])):
-        if isinstance(c, ast.Call) and unparse(c.func).endswith("_process_element"):
-          pe = ix.func("ttconv.isd:ISD._process_element")
-          sel_i = pe.params.index("selected_region") if "selected_region" in pe.params else 4
-          ok = ok and isinstance(c.args[sel_i], ast.Constant) and c.args[sel_i].value is None
-          why = f"default-region call passes selected_region={unparse(c.args[sel_i])}"
-  ctx.check(ok, "DEF-region", f"{f.qualname}|default region iff the document declares none", ctx.where(f.module, f.node),
-            "declared regions are each processed; otherwise a default region is synthesised with selected_region=None",
-            f"default-region handling changed: {why}")
-  # every declared region is processed and put into the ISD when not None
-  put = [c for c in own_nodes(f.node) if isinstance(c, ast.Call) and isinstance(c.func, ast.Attribute) and c.func.attr == "put_region"]
-  ctx.check(len(put) >= 2, "DEF-region", f"{f.qualname}|non-empty regions are added to the ISD", ctx.where(f.module, f.node), f"{len(put)} put_region calls",
-            "regions returned by _process_element are no longer added to the ISD")
+  assigns = [st for st in own_nodes(f.node) if isinstance(st, ast.Assign) and len(st.targets) == 1 and isinstance(st.targets[0], ast.Name)
+             and any(isinstance(c, ast.Call) and isinstance(c.func, ast.Attribute) and c.func.attr == "iter_regions" for c in ast.walk(st.value))]
+  if len(assigns) != 1:
+    raise AnalysisError(f"{f.qualname}: the local that holds the declared regions was not found")
+  a = assigns[0]
+  rv = a.targets[0].id
+  blk = next(getattr(parent(a), fld) for fld in ("body", "orelse") if isinstance(getattr(parent(a), fld, None), list) and any(x is a for x in getattr(parent(a), fld)))
+  after = blk[next(k for k, x in enumerate(blk) if x is a) + 1:]
+  isd_recv = {unparse(c.func.value) for c in own_nodes(f.node) if isinstance(c, ast.Call) and isinstance(c.func, ast.Attribute) and c.func.attr == "put_region"}
+  pe_recv = {unparse(c.func.value) for c in own_nodes(f.node) if isinstance(c, ast.Call) and isinstance(c.func, ast.Attribute) and c.func.attr == "_process_element"}
+  problems = []
+  for regs in ((), ("R1", "R2")):
+    eff = fineval.collect(ix, f, after, {rv: regs}, tuple(isd_recv | pe_recv))
+    if any(s_.startswith("For") or rv in s_ for s_ in eff.skipped):
+      raise AnalysisError(f"{f.qualname}: the statements after `{short(a, 40)}` could not be evaluated ({eff.skipped[0]})")
+    procs = [(k, c) for k, c in enumerate(eff.calls) if c[0] == "_process_element"]
+    puts = [c for c in eff.calls if c[0] == "put_region"]
+    got = [(c[1][sel_i], c[1][el_i]) for _, c in procs if len(c[1]) > max(sel_i, el_i)]
+    if regs:
+      if got != [(r_, r_) for r_ in regs]:
+        problems.append(f"with regions {list(regs)}: (selected region, element) of the _process_element calls are {got}, expected each region with itself, in order")
+    else:
+      ok0 = len(got) == 1 and got[0][0] is None and "DEFAULT_REGION_ID" in str(got[0][1] if not isinstance(got[0][1], tuple) else got[0][1][1]) if got else False
+      if not ok0:
+        problems.append(f"with no declared region: _process_element calls {got}, expected one call with selected_region=None and a Region(DEFAULT_REGION_ID)")
+    put_args = [c[1][0] for c in puts if c[1]]
+    if sorted(str(x) for x in put_args) != sorted(str(("result", k)) for k, _ in procs):
+      problems.append(f"with regions {list(regs)}: {len(puts)} put_region call(s) for {len(procs)} processed region(s) - every non-None result must be added to the ISD")
+  ctx.check(not problems, "DEF-region", f"{f.qualname}|default region iff the document declares none", ctx.where(f.module, a),
+            "declared regions are each processed with themselves selected and added; otherwise one default region with selected_region=None",
+            "; ".join(problems[:2]))
 
 
 def run(ctx):
